@@ -59,6 +59,13 @@ def units(rng, tier):
         us.append(U("weighted_value", {"weights": w, "sums": s, "sorted": 0, "kind": rng.choice(["list", "tuple", "array"])}, "weighted"))
         if rng.random() < 0.15:
             us.append(U("weighted_value", {"weights": w, "sums": sorted(s), "sorted": 1}, "weighted/sorted-refused"))
+        # fractional positive weights (exactly representable: multiples of 1/2, 1/4, 1/8), often normalised so that the largest is 1
+        sc = rng.choice([2, 4, 8])
+        wf = [rng.randint(1, 3 * sc) for _ in range(n)]
+        if rng.random() < 0.5:
+            wf[rng.randrange(n)] = sc
+            wf = [min(x, sc) for x in wf]
+        us.append(U("weighted_value", {"weights": wf, "wscale": sc, "sums": s, "sorted": 0, "kind": rng.choice(["list", "tuple", "array"])}, "weighted/fractional"))
     return us
 
 
@@ -78,7 +85,7 @@ def judge_requests(u, impl, model):
     if u["kind"] == "weighted_value":
         if p["sorted"]:
             return [("py", None, "weighted objective accepted the sorted fast path")]
-        m = min(Fraction(s, w) for s, w in zip(p["sums"], p["weights"]))
+        m = min(Fraction(s * p.get("wscale", 1), w) for s, w in zip(p["sums"], p["weights"]))
         exp = -(m.numerator / m.denominator)
         got = float.fromhex(impl["float"])
         if got != exp:
